@@ -10,6 +10,11 @@ Property oracle (independent of the model): central finite differences of the re
 versus the real compute_jac, one entry per requested free parameter, rel. tolerance 1e-5; plus a
 finite-difference validation of the assumed block-level derivative formula, and a few real
 optimize_parameters(use_jac=True) runs whose every jac call is checked for shape.
+Histories: a share of the cases runs several compute_jac / evaluate_parameters calls on ONE VQA object with
+numpy parameter arrays that are updated IN PLACE in between (a -= step, a[:] = new, a *= c; a second array
+interleaved).  The model is stateless, so every call is compared with the model trees evaluated at the
+CURRENT values and with finite differences on a fresh object (catches stale caches / aliasing of the
+caller's array).
 """
 import contextlib
 import glob
@@ -652,6 +657,129 @@ def structure_key(case):
 
 
 # ------------------------------------------------------------------------------------------------
+# histories: several calls on ONE VQA object and ONE (or two) numpy parameter arrays mutated in place
+# ------------------------------------------------------------------------------------------------
+# The model has no state: its answer for a call depends only on the block structure and on the CURRENT
+# parameter values.  So every call of a history is compared against the same expression trees evaluated at
+# the values the array holds at that moment, and against finite differences taken on a FRESH VQA object.
+def gen_history(rng):
+    r = rng.random()
+    case = gen_case(rng, kinds=("ham", "ph", "ph", "ph", "unit", "native"), maxblocks=3,
+                    max_nq=2, max_layers=(1 if r < 0.6 else 2), max_free=7)
+    while count_free(case) == 0:
+        case = gen_case(rng, kinds=("ham", "ph", "ph", "ph", "unit", "native"), maxblocks=3,
+                        max_nq=2, max_layers=(1 if r < 0.6 else 2), max_free=7)
+    n = count_free(case)
+    case["as_array"] = True
+    if rng.random() < 0.75:
+        case["idxs"] = None
+    arrays = [list(case["angles"]), gen_angles(rng, n)]
+    hist = [dict(op="jac", arr=0)]
+    for _ in range(rng.randint(2, 5)):
+        a = 0 if rng.random() < 0.75 else 1
+        k = rng.random()
+        if k < 0.25:
+            hist.append(dict(op="sub", arr=a, step=[round(rng.uniform(-0.6, 0.6), 6) for _ in range(n)]))
+        elif k < 0.40:
+            hist.append(dict(op="set", arr=a, values=gen_angles(rng, n)))
+        elif k < 0.50:
+            hist.append(dict(op="scale", arr=a, c=rng.choice([0.5, 0.75, 1.25, -1.0])))
+        elif k < 0.62:
+            hist.append(dict(op="cost", arr=a))
+        else:
+            hist.append(dict(op="jac", arr=a))
+    # always end with: in-place step on array 0, then the gradient again on the same array
+    hist.append(dict(op=rng.choice(["sub", "sub", "set", "scale"]), arr=0,
+                     step=[round(rng.uniform(-0.6, 0.6), 6) for _ in range(n)],
+                     values=gen_angles(rng, n), c=rng.choice([0.5, 1.25, -1.0])))
+    if rng.random() < 0.4:
+        hist.append(dict(op="cost", arr=0))
+    hist.append(dict(op="jac", arr=0))
+    case["arrays"] = arrays
+    case["history"] = hist
+    return case
+
+
+def run_history(built, case):
+    """Execute the history on the real objects; returns one record per cost/jac call."""
+    vqa = built.vqa
+    arrays = [np.array(a, dtype=float) for a in case["arrays"]]
+    idxs = case.get("idxs")
+    calls = []
+    for st in case["history"]:
+        a = arrays[st["arr"]]
+        op = st["op"]
+        if op == "sub":
+            a -= np.array(st["step"], dtype=float)
+        elif op == "set":
+            a[:] = np.array(st["values"], dtype=float)
+        elif op == "scale":
+            a *= st["c"]
+        elif op == "cost":
+            vals = [float(x) for x in a]
+            try:
+                res = float(np.real(vqa.evaluate_parameters(a)))
+            except Exception as e:
+                res = "rejected:" + type(e).__name__
+            calls.append(dict(op="cost", values=vals, result=res))
+        elif op == "jac":
+            vals = [float(x) for x in a]
+            log = []
+            try:
+                with recording(built, vals, log):
+                    j = vqa.compute_jac(a) if idxs is None else vqa.compute_jac(a, list(idxs))
+                res = [float(x) for x in np.asarray(j).ravel()]
+            except Exception as e:
+                res = "rejected:" + type(e).__name__
+            calls.append(dict(op="jac", values=vals, result=res, dcalls=log,
+                              distinct=len(set(vals)) == len(vals)))
+    return calls
+
+
+def check_history(case, mval=None):
+    """-> (list of (what, impl, model) model/impl differences, oracle failure dict or None)"""
+    built = Built(case)
+    calls = run_history(built, case)
+    ref = Built(case)                # history-free reference object for the finite differences
+    diffs = []
+    fail = None
+    m_eval = m_jac = None
+    if mval is not None:
+        m_eval, m_jac = opt(mval[3]), opt(mval[4])
+    for n, c in enumerate(calls):
+        at = dict(case)
+        at["angles"] = c["values"]
+        if c["op"] == "cost":
+            want = float(np.real(ref.vqa.evaluate_parameters(list(c["values"]))))
+            if isinstance(c["result"], str) or abs(c["result"] - want) > 1e-9 * max(1.0, abs(want)):
+                if fail is None:
+                    fail = dict(observed=dict(call=n, cost=c["result"], values=c["values"]), expected=want,
+                                what="history: evaluate_parameters depends on earlier calls / in-place updates of the parameter array")
+            if m_eval is not None and not isinstance(c["result"], str):
+                mv = eval_ex(built, c["values"], m_eval)
+                if abs(mv - c["result"]) > 1e-9 * max(1.0, abs(mv)):
+                    diffs.append(("history: cost value at the current parameters (call %d)" % n, c["result"], mv))
+            continue
+        real = dict(cost=0.0, jac=c["result"], dcalls=c["dcalls"])
+        f = oracle(ref, at, real)
+        if f is not None and fail is None:
+            fail = dict(observed=dict(call=n, values=c["values"], **f["observed"]) if isinstance(f["observed"], dict)
+                        else dict(call=n, values=c["values"], result=f["observed"]),
+                        expected=f["expected"],
+                        what="history: " + f["what"] + (" (first call of the history)" if n == 0 else
+                                                       " after earlier calls / in-place updates of the parameter array"))
+        if m_jac is not None and not isinstance(c["result"], str):
+            vals = [eval_ex(built, c["values"], e) for e in m_jac]
+            if len(vals) != len(c["result"]) or any(abs(a - b) > 1e-9 * max(1.0, abs(b)) for a, b in zip(c["result"], vals)):
+                diffs.append(("history: gradient at the current parameters (call %d)" % n, c["result"], vals))
+            if c["distinct"] and [find_dU(e) for e in m_jac] != c["dcalls"]:
+                diffs.append(("history: get_unitary_derivative calls (call %d)" % n, c["dcalls"], [find_dU(e) for e in m_jac]))
+        elif m_jac is None and mval is not None and not isinstance(c["result"], str):
+            diffs.append(("history: compute_jac accepted/rejected (call %d)" % n, "accepted", "rejected"))
+    return diffs, fail
+
+
+# ------------------------------------------------------------------------------------------------
 # optimize_parameters(use_jac=True)
 # ------------------------------------------------------------------------------------------------
 def check_optimize(case, layer_by_layer):
@@ -707,7 +835,11 @@ def one_real(case):
 
 def correspond(ctx):
     corr = Corr(rule="non-trivial = at least one parameterised block and (>= 2 layers or an initial block or a "
-                     "multi-parameter block or a parameterless block or an explicit index subset)")
+                     "multi-parameter block or a parameterless block or an explicit index subset); every history "
+                     "(several compute_jac / evaluate_parameters calls on one VQA object and one or two numpy arrays "
+                     "updated in place in between) is non-trivial. The model is stateless: its answer depends only on "
+                     "the block structure and the CURRENT parameter values, never on earlier calls, so every call of a "
+                     "history is compared with the same model expression trees evaluated at the current values")
     rng = ctx.rng
     cases = []
     for c in corpus_cases():
@@ -719,6 +851,8 @@ def correspond(ctx):
     if ctx.thorough:
         for c in exhaustive_small():
             cases.append((c, "exhaustive-subsets"))
+    for _ in range(ctx.n(120, 1000)):
+        cases.append((gen_history(rng), "history"))
     tag = "%d" % os.getpid()
     mvals = run_model([c for c, _ in cases], tag)
     n_orig = 0
@@ -730,6 +864,22 @@ def correspond(ctx):
         corr.tally("layers:%d" % case["layers"])
         corr.tally("qubits:%d" % case["nq"])
         corr.tally("indices:" + ("all" if case.get("idxs") is None else "subset"))
+        if "history" in case:
+            ops = [st["op"] for st in case["history"]]
+            corr.tally("history:calls", sum(1 for o in ops if o in ("jac", "cost")))
+            corr.tally("history:in-place updates", sum(1 for o in ops if o in ("sub", "set", "scale")))
+            try:
+                hd, hf = check_history(case, mval)
+            except Exception as e:
+                corr.disagree(case, "harness could not run the history: %r" % (e,), None, "history construction")
+                continue
+            for what, impl, model in hd[:2]:
+                corr.disagree(case, impl, model, what)
+            if hf is not None:
+                corr.oracle_fail(case, hf["observed"], hf["expected"], hf["what"])
+            corr.count(json.dumps([structure_key(case), [(st["op"], st["arr"]) for st in case["history"]]]),
+                       nontrivial=True, sample=None)
+            continue
         try:
             built, real = one_real(case)
         except Exception as e:
@@ -798,6 +948,8 @@ def classify(failure):
 
 
 def _fail_of(case):
+    if "history" in case:
+        return check_history(case, None)[1]
     if "optimize" in case:
         c = {k: v for k, v in case.items() if k != "optimize"}
         f, _ = check_optimize(c, bool(case["optimize"].get("layer_by_layer")))
@@ -824,6 +976,8 @@ def search(ctx, broken):
     rng = ctx.rng
     for _ in range(ctx.n(150, 1000)):
         cands.append(gen_case(rng))
+        if _ % 3 == 0:
+            cands.append(gen_history(rng))
     for case in cands:
         try:
             f = _fail_of(case)
